@@ -35,7 +35,27 @@ def gen_chain(seed, size):
             "endmask": [1, 1], "payloads": payloads, "init": init, "trans": trans}
 
 
+def micro(name):
+    """the micro-models explored exhaustively by TimeWarpMC (spec/TimeWarpMC_m1.tla, _m2.tla), for the real code"""
+    def snd(off, delay, ty):
+        return {"drule": off, "drule2": off, "delay": delay, "ty": ty, "pid": 0}
+    def tr(ns, sends):
+        return {"draw": 0, "lib": 0, "mem": 0, "out": [{"ns": ns, "sends": sends}]}
+    pay = [{"size": 0, "padd": 0, "bytes": []}]
+    if name == "m1":
+        return {"seed": 0, "family": "micro_m1", "nlps": 2, "K": 2, "T": 1, "P": 1, "split": 2, "need": [99, 99], "cap": [99, 99], "endmask": [1, 1],
+                "payloads": pay, "init": [[snd(0, 1, 1)], [snd(0, 3, 1)]],
+                "trans": [[tr(1, [snd(1, 1, 1)])], [tr(1, [])]]}
+    if name == "m2":
+        return {"seed": 0, "family": "micro_m2", "nlps": 3, "K": 2, "T": 2, "P": 1, "split": 3, "need": [99] * 3, "cap": [99] * 3, "endmask": [1, 1],
+                "payloads": pay, "init": [[snd(0, 1, 2)], [], [snd(0, 2, 1), snd(0, 4, 1)]],
+                "trans": [[tr(1, [snd(2, 1, 1)]), tr(0, [snd(2, 0, 1)])], [tr(1, []), tr(1, [])]]}
+    raise ValueError(name)
+
+
 def gen(seed, family="mixed", size="small"):
+    if family.startswith("micro_"):
+        return micro(family[6:])
     if family == "chain":
         return gen_chain(seed, size)
     r = random.Random(seed * 7919 + (FAMILIES.index(family) if family in FAMILIES else 99))
